@@ -345,6 +345,18 @@ theorem reread_after_setitem {β γ : Type} (f : β → γ) (xs : List β) (i : 
 theorem history_stateless {β γ : Type} (f : β → γ) (hist : List (List β)) (k : Nat) :
     (hist.map (List.map f))[k]? = (hist[k]?).map (List.map f) := List.getElem?_map
 
+/-- calls that raise and reads (`Exp`, `matrix`, in any grad mode) do not change any object: a history gives the same
+objects as the history with those calls removed (atomic error paths; value independence of grad mode = purity) -/
+theorem failing_calls_and_reads_leave_no_trace {β : Type} (ops : List (ObjOp β)) (s : Store β) :
+    runOps s ops = runOps s (ops.filter ObjOp.changes) := runOps_filter_changes ops s
+
+/-- a deep copy follows its own law: after `dst := deepcopy src` and an in-place item assignment on `src`, `Exp` of `dst`
+is the old result and `Exp` of `src` changes in exactly that item -/
+theorem deepcopy_independent {β γ : Type} (f : β → γ) (s : Store β) (dst src i : Nat) (y : β) (h : dst ≠ src) :
+    readObj f (runOps s [.deepcopy dst src, .setitem src i y]) dst = readObj f s src ∧
+    readObj f (runOps s [.deepcopy dst src, .setitem src i y]) src = (readObj f s src).set i (f y) :=
+  deepcopy_then_setitem f s dst src i y h
+
 /-! ## 6. Non-vacuity: the hypotheses are satisfiable by non-trivial values -/
 
 -- witnesses `eps64`, `x0 = (0.3,-0.2,0.5)`, `xtiny = (1e-17,0,0)` and their elementary facts live in Lemmas/Sim3Bounds.lean
